@@ -1044,6 +1044,8 @@ impl HomeRelayWatch {
     /// the time the old actor tries to write, the URL no longer matches.
     fn set_status(&self, url: &RelayUrl, state: RelayConnectionState) {
         if self.inner.get().as_ref().map(RelayStatus::url) == Some(url) {
+            #[cfg(iroh_verif)]
+            iroh_base::verif::point("home_relay.set_status.between");
             let _ = self.inner.set(Some(RelayStatus::new(url.clone(), state)));
         }
     }
@@ -1933,5 +1935,44 @@ mod tests {
             watch.get(),
             Some(RelayStatus::new(b, RelayConnectionState::Connected)),
         );
+    }
+}
+
+/// Verification wrappers (cfg(iroh_verif) only).
+#[cfg(iroh_verif)]
+pub(crate) mod verif {
+    use iroh_base::RelayUrl;
+
+    use super::{HomeRelayWatch, RelayConnectionState};
+
+    /// Drives a [`HomeRelayWatch`] the way `RelayActor` and `ActiveRelayActor` do.
+    #[derive(Debug, Clone, Default)]
+    pub struct HomeRelay(HomeRelayWatch);
+
+    impl HomeRelay {
+        /// `RelayActor`: a new home relay was chosen.
+        pub fn set(&self, url: RelayUrl, connected: bool) {
+            self.0.set(url, state(connected));
+        }
+        /// `RelayActor`: no home relay.
+        pub fn clear(&self) {
+            self.0.clear();
+        }
+        /// `ActiveRelayActor` for `url`: status update.
+        pub fn set_status(&self, url: &RelayUrl, connected: bool) {
+            self.0.set_status(url, state(connected));
+        }
+        /// The advertised home relay and whether it is reported connected.
+        pub fn get(&self) -> Option<(RelayUrl, bool)> {
+            self.0.get().map(|s| (s.url().clone(), s.is_connected()))
+        }
+    }
+
+    fn state(connected: bool) -> RelayConnectionState {
+        if connected {
+            RelayConnectionState::Connected
+        } else {
+            RelayConnectionState::Connecting
+        }
     }
 }
